@@ -225,10 +225,25 @@ func genSeqMapCase(r rng, mode string) *seqMapCase {
 			add(mop{what: "Size"})
 			add(mop{what: "Range"})
 			keep := pick(r, []int{0, 0, 1, 3})
+			// delete order: reverse, forward or shuffled (forward / shuffled order empties
+			// buckets in the middle of a chain while later ones still hold entries)
+			order := make([]int, 0, n)
 			for k := n - 1; k >= keep; k-- {
+				order = append(order, k)
+			}
+			switch r.intn(3) {
+			case 1:
+				for a, b := 0, len(order)-1; a < b; a, b = a+1, b-1 {
+					order[a], order[b] = order[b], order[a]
+				}
+			case 2:
+				r.Shuffle(len(order), func(a, b int) { order[a], order[b] = order[b], order[a] })
+			}
+			for j, k := range order {
 				add(w(pick(r, []uint8{oDelete, oLoadAndDelete, oCompute}), k, fnDel))
-				if k%67 == 0 {
-					add(w(oLoad, r.intn(n), 0))
+				if j%41 == 0 {
+					add(w(oLoad, order[r.intn(len(order))], 0))
+					add(w(oLoad, order[len(order)-1], 0))
 				}
 			}
 			add(mop{what: "Size"})
